@@ -102,7 +102,7 @@ int main(int argc, char** argv) {
     auto w = std::make_unique<World>(); w->scn = &sc;
     vrt::RunResult rr;
     {
-      vrt::Ctl c;
+      vrt::Ctl c; c.accept = {"stop.", "spin_wait", "r0", "d0", "q0"};
       for (int t = 1; t <= 3; ++t) c.spawn(t, [&, t] { w->run(w->scn->prog[t]); });
       c.start_all();
       rr = drive(c);
